@@ -145,8 +145,8 @@ pub fn frame_with_len(rng: &mut Rng, kind: u8, target: usize) -> Option<Frame> {
 
 fn describe(f: &Frame) -> String {
     let s = format!("{:?}", f);
-    if s.len() > 200 {
-        format!("{}…({} chars)", &s[..200.min(s.len())].chars().take(180).collect::<String>(), s.len())
+    if s.chars().count() > 200 {
+        format!("{}…({} chars)", s.chars().take(180).collect::<String>(), s.chars().count())
     } else {
         s
     }
@@ -332,6 +332,66 @@ pub fn run(rep: &mut StageReport, tier: &str, seed: u64) {
                 rep.count("limit_sweep_encode_cases", 1);
             }
         }
+    }
+    // a refused frame must leave the outgoing buffer untouched: the byte stream stays the concatenation of the
+    // accepted frames (FramedWrite keeps using the same buffer after an encoder error)
+    if !miri {
+        let n_mixed = if thorough { 400 } else { 60 };
+        for i in 0..n_mixed {
+            rep.evaluations += 1;
+            let mut buf = BytesMut::new();
+            let mut accepted: Vec<Frame> = vec![];
+            let k = rng.range(2, 6);
+            let mut refused = 0;
+            let mut bad: Option<Viol> = None;
+            for j in 0..k {
+                if j > 0 && rng.pct(40) {
+                    // an oversize frame of a random kind
+                    let span = if rng.pct(50) { 40 } else { 300_000 };
+                    let over = LIMIT + 1 + rng.below(span) as usize;
+                    let kind = rng.below(4) as u8;
+                    let f = match frame_with_len(&mut rng, kind, over) {
+                        Some(f) => f,
+                        None => continue,
+                    };
+                    let before = buf.clone();
+                    match MessageCodec.encode(f, &mut buf) {
+                        Err(_) => {
+                            refused += 1;
+                            if buf != before {
+                                bad = Some(Viol("limit/refused-frame-left-in-buffer".into(), format!("the encoder refused a {}-byte payload but left {} extra bytes in the outgoing buffer (was {} bytes, now {})", over, buf.len() as i64 - before.len() as i64, before.len(), buf.len())));
+                                break;
+                            }
+                        }
+                        Ok(()) => {
+                            bad = Some(Viol("limit/encoder-accepts-oversize".into(), format!("encoder accepted a payload of {} bytes", over)));
+                            break;
+                        }
+                    }
+                } else {
+                    let f = rand_frame(&mut rng, true);
+                    if MessageCodec.encode(f.clone(), &mut buf).is_ok() {
+                        accepted.push(f);
+                    }
+                }
+            }
+            if bad.is_none() && refused > 0 {
+                match decode_chunked(&buf, &[]) {
+                    Ok(got) if got == accepted => {
+                        let mut h = crate::common::Hasher64::new();
+                        h.b(&buf);
+                        h.u(refused as u64);
+                        rep.distinct.insert(h.0);
+                    }
+                    Ok(got) => bad = Some(Viol("limit/stream-corrupted-by-refused-frame".into(), format!("{} frames accepted and {} refused, {} decoded", accepted.len(), refused, got.len()))),
+                    Err(e) => bad = Some(Viol("limit/stream-corrupted-by-refused-frame".into(), format!("{} frames accepted and {} refused; decoding the buffer failed: {}", accepted.len(), refused, e))),
+                }
+            }
+            if let Some(v) = bad {
+                report(rep, v, i as u64, json!({"accepted_frames": accepted.len(), "refused": refused}));
+            }
+        }
+        rep.count("streams_with_refused_frames", n_mixed as u64);
     }
     // bare headers announcing a length: decoder must refuse > 1 MiB *now*, and wait otherwise
     let mut lens: Vec<u64> = vec![0, 1, 8, (LIMIT - 1) as u64, LIMIT as u64, LIMIT as u64 + 1, LIMIT as u64 + 2, 2 * LIMIT as u64, u32::MAX as u64, 1 << 40, u64::MAX - 1, u64::MAX, 1 << 63];
